@@ -9,6 +9,7 @@
 #include "gen.hpp"
 #include "pwc.hpp"
 
+#include <memory>
 #include <random>
 #include <sstream>
 #include <string>
@@ -96,6 +97,7 @@ struct TestFn
     int family = 0;
     std::size_t dims = 1;
     std::vector<DistSpec<T>> dists;
+    std::shared_ptr<std::size_t> counter = std::make_shared<std::size_t>(0); // calls so far (families that depend on it)
 
     static std::vector<T> const& coords(hep::multi_channel_point<T> const& p) { return p.coordinates(); }
     static std::vector<T> const& coords(hep::mc_point<T> const& p) { return p.point(); }
@@ -111,6 +113,9 @@ struct TestFn
         case 2: return x0 - T(0.5) + T(0.25) * xl;                              // sign changing
         case 3: return T(2);                                                    // constant
         case 4: return T(1) / (T(0.01) + (x0 - T(0.4)) * (x0 - T(0.4)));       // peaked
+        case 6: return std::numeric_limits<T>::quiet_NaN();                     // non-finite everywhere
+        case 7: return ((*counter)++ % 2 == 0) ? T(1) : T(-1);                  // alternating: exact zero mean for even N (weight 1)
+        case 8: return ((*counter)++ % 3 == 0) ? std::numeric_limits<T>::infinity() : T(0); // zero or infinite
         default: return T(0);                                                   // identically zero
         }
     }
